@@ -167,6 +167,11 @@ class MediaList(cssutils.util._NewListBase):
         if newMedium.wellformed:
             return newMedium
 
+    def __delitem__(self, index):
+        "Overwriting _NewListBase.__delitem__ to check readonly."
+        self._checkReadonly()
+        super().__delitem__(index)
+
     def __setitem__(self, index, newMedium):
         """Overwriting ListSeq.__setitem__
 
